@@ -140,7 +140,7 @@ def gen_quat(rng, eps, atol=1e-5):
         tag = f"coord{i}:th{common.sig_mag(th)}"
     else:  # prescribed squared components: regions and their boundaries
         kind = rng.choice(["d2", "d2", "x=y", "z=w", "deep", "equal", "x=y&d2", "z=w&d2"])
-        tiny = rng.choice([0.0, 0.0, 1e-16, -1e-16, 1e-9, -1e-9, 1e-6, -1e-6, 1e-3, -1e-3])
+        tiny = rng.choice([0.0, 0.0, 1e-16, -1e-16, 1e-12, -1e-12, 1e-9, -1e-9, 1e-8, -1e-8, 1e-7, -1e-7, 1e-6, -1e-6, 1e-3, -1e-3])
         if kind in ("d2", "x=y&d2", "z=w&d2"):
             r22 = atol + tiny * (1.0 if abs(tiny) > 1e-12 else atol)   # R22 = 1 − 2(x²+y²) at / next to the mask threshold
             sxy = (1 - r22) / 2
@@ -181,6 +181,8 @@ def gen_scale(rng, atol=1e-5):
     c = rng.random()
     if c < 0.08:    # beyond the documented range: the statement says "every element"
         return max(10 * atol, rng.choice([1e-4, 3e-4, 1e4, 1e5, 1e6]))
+    if c < 0.16:    # nearly (not exactly) the special value 1: between round-off and any "isclose" heuristic
+        return 1.0 + rng.choice([1e-12, 1e-9, 1e-7, 1e-6, 1e-5, 1e-4]) * rng.choice([-1, 1])
     if c < 0.3:
         return max(lo, rng.choice([1e-3, 1e3, 1.0, 2.0, 0.5, 1e-2, 1e2]))
     return 10 ** rng.uniform(math.log10(lo), 3)
@@ -509,7 +511,7 @@ def run_roundtrip(ctx: Ctx, n):
 # ----------------------------------------------------------------------------- reject stream
 
 PERT = ["entry", "entry", "rowscale", "uniform", "reflect", "rank", "shear", "zero", "nonuniform", "none"]
-FACT = [1e-3, 0.1, 0.3, 0.7, 0.95, 1.05, 1.5, 3.0, 10.0, 1e3, 1e5]
+FACT = [1e-7, 1e-5, 1e-3, 1e-3, 0.1, 0.3, 0.7, 0.95, 1.05, 1.5, 3.0, 10.0, 1e3, 1e5]   # from round-off level up to far beyond the tolerance
 
 
 def perturb(rng, R, kind, mag):
@@ -632,12 +634,13 @@ def prep_reject(ctx: Ctx, case):
     n = M64.shape[0]
     M = M64.to(D).clone()
     Min = M.clone()
-    got, exc = None, None
+    got, exc, Yv = None, None, None
     try:
         with warnings.catch_warnings():
             warnings.simplefilter("ignore")
             Y = call_conv(case, Min)
         got = "ok" if bool(torch.isfinite(Y.tensor()).all()) else "nonFinite"
+        Yv = Y.tensor().double().reshape(n, -1)
     except Exception as e:
         got, exc = classify_exc(e), e
     if not torch.equal(torch.nan_to_num(Min), torch.nan_to_num(M)):
@@ -712,6 +715,42 @@ def prep_reject(ctx: Ctx, case):
             verdicts.append("ok" if st == "ok" else toks)
         if illdet and verdicts[0] != "ok":
             verdicts += ["notOrthogonal", "detNotOne", "notFullRank"] + (["nonFinite", "ok"] if not case["check"] else [])
+        # VALUES too when both sides return: a matrix that is a rotation only up to 1e-12 … 1e-3 must still be converted by the
+        # documented formula (a hidden "already a rotation → shortcut" heuristic with a loose tolerance shows here); the conversion
+        # is well conditioned on any matrix (selected t_i > 0), so the property's 16 eps applies relative to the result's size
+        st0, toks0 = common.parse_reply(reps[0])
+        def robust_items():
+            """items that are near-rotations (deviation ≤ 1e-2) and whose three mask comparisons have a margin well above rounding —
+            on a non-rotation the four candidates differ by the order of the deviation, so values are comparable only when code
+            and model provably select the same candidate"""
+            import numpy as np
+            okm = []
+            for R in M64[:, :3, :3].numpy():
+                d_ = float(np.linalg.det(R))
+                if name in ("Sim3", "RxSO3"):
+                    if not d_ > 0:
+                        okm.append(False)
+                        continue
+                    R = R / d_ ** (1 / 3)
+                dev = float(np.abs(R @ R.T - np.eye(3)).max())
+                marg = min(abs(R[2, 2] - case["atol"]), abs(R[0, 0] - R[1, 1]) if R[2, 2] < case["atol"] else abs(R[0, 0] + R[1, 1]))
+                okm.append(dev <= 1e-2 and marg > 1e4 * common.EPS[dtype] + 4 * dev)
+            return okm
+        if got == "ok" and st0 == "ok" and not illdet and all(robust_items()):
+            want = torch.tensor([float(common.from_wire(t)) for t in toks0], dtype=torch.float64).reshape(n, U.GDIM[name])
+            gotv = Yv
+            eps_ = common.EPS[dtype]
+            qW, qG = want[:, U.QSL[name]], gotv[:, U.QSL[name]]
+            scq = qW.norm(dim=-1).clamp_min(1.0)
+            dq = (torch.minimum((qG - qW).norm(dim=-1), (qG + qW).norm(dim=-1)) / scq).max().item()
+            okv = dq <= K_ROT * eps_
+            if U.SIDX[name] is not None:
+                okv = okv and bool((((gotv[:, U.SIDX[name]] - want[:, U.SIDX[name]]).abs() / want[:, U.SIDX[name]].abs()) <= K_ROT * eps_).all())
+            if U.TSL[name] is not None:
+                okv = okv and torch.equal(gotv[:, U.TSL[name]], want[:, U.TSL[name]])
+            ctx.count("reject.values-compared")
+            if not okv:
+                ctx.disagree("reject", case, f"accepted matrices are converted to different values: q {dq:.3e} (relative) {desc}")
         if got not in verdicts:
             ctx.disagree("reject", case, f"code: {got}, model: {verdicts} {desc}")
         ctx.note_case(("rej", name, dtype, case["lay"], case["check"], case["rtol"], case["atol"], case["kind"],
@@ -1155,7 +1194,8 @@ def corner_quats(atol=1e-5):
         szw = 1 - sxy
         qs.append(([math.sqrt(sxy / 2), math.sqrt(sxy / 2), math.sqrt(szw / 2), math.sqrt(szw / 2)], "R22=atol&ties"))
         qs.append(([math.sqrt(sxy * 0.9), -math.sqrt(sxy * 0.1), math.sqrt(szw * 0.2), -math.sqrt(szw * 0.8)], "R22=atol"))
-    for th in (0.0, 1e-30, 1e-9, math.pi - 1e-9, math.pi, math.pi + 1e-9, 2 * math.pi - 1e-9):
+    for th in (0.0, 1e-30, 1e-12, 1e-9, 1e-8, 1e-7, 1e-6, 1e-5, 1e-4, math.pi / 2 - 1e-7, math.pi / 2 + 1e-7, math.pi - 1e-5, math.pi - 1e-7,
+               math.pi - 1e-9, math.pi, math.pi + 1e-9, math.pi + 1e-7, 2 * math.pi - 1e-9, 2 * math.pi - 1e-6):
         d = _norm([1.0, -2.0, 0.5])
         qs.append(([d[0] * math.sin(th / 2), d[1] * math.sin(th / 2), d[2] * math.sin(th / 2), math.cos(th / 2)], f"th={th:.3g}"))
     return [(_norm(q), t) for q, t in qs]
@@ -1165,7 +1205,7 @@ def roundtrip_corpus():
     """mixed batches: every corner quaternion in ONE batch, item i with its own scale / translation (incl. values beyond
     the documented ranges), each type x dtype x layout; plus the same items as a (7, 8) grid and one big batch"""
     qs = corner_quats()
-    scales = [1.0, 1e-3, 1e3, 2.0, 1e-4, 1e4, 0.5, 1e6, 3e-4, 1e-2]
+    scales = [1.0, 1e-3, 1e3, 2.0, 1e-4, 1e4, 0.5, 1e6, 3e-4, 1e-2, 1 + 1e-7, 1 - 1e-9, 1 + 1e-5, 1 - 1e-12]
     trans = [[0.0, 0.0, 0.0], [1.0, 2.0, 3.0], [1e6, -1e6, 1e6], [1e-30, 0.0, -1e-30], [-7.5, 1e3, 1e-3], [1e9, 1.0, -1e-9]]
     out = []
     ci = 0
@@ -1184,7 +1224,7 @@ def roundtrip_corpus():
                                 "rows": U.to_dtype_exact(rows, dtype)[1].tolist(), "tags": ["corpus"] + sorted(set(tags))[:2], "ci": ci})
                 ci += 1
     # one large batch (vectorised kernels switch code paths with the size)
-    big = [rows_of("Sim3", trans[i % 6], qs[i % len(qs)][0], scales[i % 10]) for i in range(1031)]
+    big = [rows_of("Sim3", trans[i % 6], qs[i % len(qs)][0], scales[i % len(scales)]) for i in range(1031)]
     out.append({"stream": "roundtrip", "type": "Sim3", "src": "Sim3", "dtype": "float64", "lay": "44", "shape": [1031], "check": True,
                 "rtol": 1e-5, "atol": 1e-5, "api": "from_matrix", "rows": big, "tags": ["corpus", "big"], "ci": 999})
     return out
@@ -1991,6 +2031,224 @@ def run_mode_orders(ctx: Ctx):
             except Exception as e:
                 ctx.fail(case, f"raises: conversion chain ({name}, {dtype}) raised {type(e).__name__}: {str(e)[:100]}")
 
+
+# ----------------------------------------------------------------------------- (32) interleaved histories with every other operation
+
+def run_interleave(ctx: Ctx):
+    """module-level constants written in place by ANOTHER operation: between two identical calls of the operations under test
+    (matrix(), from_matrix, euler, euler2SO3 — unbatched, lshape (1,), (1,1) and batched, each dtype) run every other public
+    LieTensor operation (Exp, Log, Inv, Mul, Act on 3- and 4-vectors, Adj, AdjT, Jinvp, Retr, Jr, rotation / translation / scale,
+    identity constructors — forward AND backward, on single items and on batches). After EACH other operation the operations
+    under test are repeated: bit-identical results, and the round trip from_matrix(X.matrix()) still reproduces X."""
+    p = P()
+    qs = corner_quats()
+    for dtype in ("float64", "float32"):
+        D = U.dt(dtype)
+        eps = common.EPS[dtype]
+
+        def elem(name, shape, k0=0):
+            n = max(1, int(math.prod(shape)))
+            rows = [rows_of(name, [0.4 * i + 0.1, -1.0, 2.0], qs[(7 * i + 5 + k0) % len(qs)][0], [1.5, 0.25, 3.0][i % 3]) for i in range(n)]
+            return p.LieTensor(torch.tensor(rows, dtype=torch.float64).to(D).reshape(tuple(shape) + (U.GDIM[name],)), ltype=U.ltype(name))
+        tests = []
+        for name in U.GROUPS:
+            for shape in ((), (1,), (1, 1), (3,)):
+                X = elem(name, shape)
+                tests.append((f"{name}{shape}.matrix", X, lambda X=X: X.matrix()))
+                tests.append((f"{name}{shape}.roundtrip", X, lambda X=X, name=name: p.from_matrix(X.matrix(), U.ltype(name)).tensor()))
+                tests.append((f"{name}{shape}.euler", X, lambda X=X: X.euler()))
+                tests.append((f"{name}{shape}.Log.matrix", X, lambda X=X: X.Log().matrix()))
+        ang = torch.tensor([[0.3, -0.7, 1.9]], dtype=D)
+        tests.append(("euler2SO3", None, lambda: p.euler2SO3(ang).tensor()))
+        try:
+            with warnings.catch_warnings():
+                warnings.simplefilter("ignore")
+                ref = [f() for _, _, f in tests]
+        except Exception as e:
+            ctx.fail({"stream": "interleave", "dtype": dtype}, f"raises: an operation under test raised {type(e).__name__} before any interleaving: {str(e)[:100]}")
+            continue
+        # the round-trip reference itself must be right (property oracle), so that "unchanged" means "still right"
+        others = []
+        for name in U.GROUPS:
+            for shape in ((), (1,), (1, 1), (2,)):
+                def ops(name=name, shape=shape):
+                    X = elem(name, shape, 3)
+                    Y = elem(name, shape, 11)
+                    a = X.Log()
+                    p3 = torch.tensor([0.3, -0.2, 0.9], dtype=D).expand(tuple(shape) + (3,)).clone()
+                    p4 = torch.tensor([0.3, -0.2, 0.9, 1.0], dtype=D).expand(tuple(shape) + (4,)).clone()
+                    yield "Adj", lambda: X.Adj(a)
+                    yield "AdjT", lambda: X.AdjT(a)
+                    yield "Act3", lambda: X.Act(p3)
+                    yield "Act4", lambda: X.Act(p4)
+                    yield "Mul", lambda: X @ Y
+                    yield "Inv", lambda: X.Inv()
+                    yield "Log", lambda: X.Log()
+                    yield "Exp", lambda: a.Exp()
+                    yield "Jinvp", lambda: X.Jinvp(a)
+                    yield "Retr", lambda: X.Retr(a)
+                    yield "rotation", lambda: X.rotation().tensor()
+                    yield "identity_like", lambda: p.identity_like(X).tensor()
+                    if name == "SO3":
+                        yield "Jr", lambda: a.Jr()
+                    for nm, fn in (("Adj", lambda Z: Z.Adj(a)), ("AdjT", lambda Z: Z.AdjT(a)), ("Act3", lambda Z: Z.Act(p3)), ("Act4", lambda Z: Z.Act(p4)),
+                                   ("Mul", lambda Z: Z @ Y), ("Inv", lambda Z: Z.Inv()), ("Log", lambda Z: Z.Log()), ("matrix", lambda Z: Z.matrix()),
+                                   ("Jinvp", lambda Z: Z.Jinvp(a))):
+                        def bw(fn=fn):
+                            Z = X.clone().requires_grad_(True)
+                            o = fn(Z)
+                            o = o.tensor() if hasattr(o, "ltype") else o
+                            o.sum().backward()
+                            return Z.grad
+                        yield nm + ".backward", bw
+                    def bwexp():
+                        z = a.clone().requires_grad_(True)
+                        z.Exp().tensor().sum().backward()
+                        return z.grad
+                    yield "Exp.backward", bwexp
+                others.append((name, shape, ops))
+        poisoned = False
+        for name, shape, ops in others:
+            if poisoned:
+                break
+            for opname, fn in ops():
+                try:
+                    with warnings.catch_warnings():
+                        warnings.simplefilter("ignore")
+                        fn()
+                except Exception:
+                    ctx.count("interleave.other-op-raised")      # not this property's business (C03–C05 decide it)
+                    continue
+                ctx.count("interleave.other-ops")
+                last_of_block = opname == "Exp.backward"
+                for (tname, X, f), r0 in zip(tests, ref):
+                    # after every single operation: the unbatched round trips (they go through matrix()) and one algebra matrix; after
+                    # the last operation of each (type, shape) block: every operation under test
+                    if not last_of_block and not (tname.endswith("().roundtrip") or tname == "Sim3().Log.matrix"):
+                        continue
+                    case = {"stream": "interleave", "dtype": dtype, "after": f"{name}{tuple(shape)}.{opname}", "test": tname}
+                    try:
+                        with warnings.catch_warnings():
+                            warnings.simplefilter("ignore")
+                            r1 = f()
+                    except Exception as e:
+                        ctx.fail(case, f"raises: {tname} raised {type(e).__name__} after {case['after']} ({dtype}): {str(e)[:90]}")
+                        poisoned = True
+                        break
+                    if r1.shape != r0.shape or not torch.equal(torch.nan_to_num(r1), torch.nan_to_num(r0)):
+                        err = float((r1.double() - r0.double()).abs().max()) if r1.shape == r0.shape else float("nan")
+                        extra = ""
+                        if tname.endswith(".roundtrip") and X is not None:
+                            tn = tname.split("(")[0].split("[")[0]
+                            extra = " — and the round trip no longer reproduces X"
+                        ctx.fail(case, f"state: {tname} ({dtype}) returns a different result (max abs diff {err:.3e}) after the unrelated operation {case['after']} "
+                                       f"than before it{extra}")
+                        poisoned = True
+                        break
+                ctx.note_case(("interleave", dtype, name, tuple(shape), opname), True)
+                if poisoned:
+                    break
+        # independent of "unchanged": the round trips computed LAST must still reproduce X (property oracle)
+        for (tname, X, f), r0 in zip(tests, ref):
+            if tname.endswith(".roundtrip"):
+                name = [g for g in U.GROUPS if tname.startswith(g + "(")][-1] if any(tname.startswith(g + "(") for g in U.GROUPS) else None
+                if name is None:
+                    continue
+                try:
+                    with warnings.catch_warnings():
+                        warnings.simplefilter("ignore")
+                        y = f().double().reshape(-1, U.GDIM[name])
+                except Exception:
+                    continue
+                x = X.tensor().double().reshape(-1, U.GDIM[name])
+                dq = torch.minimum((y[:, U.QSL[name]] - x[:, U.QSL[name]]).norm(dim=-1), (y[:, U.QSL[name]] + x[:, U.QSL[name]]).norm(dim=-1)).max().item()
+                if not dq <= K_ROT * eps:
+                    ctx.fail({"stream": "interleave", "dtype": dtype, "test": tname, "X": x.tolist()},
+                             f"rotation: after the interleaved history from_matrix(X.matrix()) differs from X by {dq:.3e} > 16 eps ({tname}, {dtype})")
+
+
+# ----------------------------------------------------------------------------- (30) every dtype the entry points accept
+
+def run_dtypes(ctx: Ctx):
+    """beyond float32 / float64: float16, bfloat16 (matrices of exactly representable rotations and rounded generic ones), integer /
+    bool / complex inputs. Scope rule: what the clean tree refuses (narrow integers for the matrix converters, check=True in half
+    precision: LAPACK kernels missing) is only COUNTED; whatever is accepted must have the right VALUE (the property's bounds at the
+    eps of that dtype) and DTYPE (floating inputs keep their dtype; integer angles give the default float dtype)."""
+    p = P()
+    qs = [q for q, _ in corner_quats()]
+    exact = octahedral_quats()[:24:3] + [[0.5, -0.5, 0.5, 0.5]]
+    for dtname, D, eps in (("float16", torch.float16, 2.0 ** -10), ("bfloat16", torch.bfloat16, 2.0 ** -7)):
+        import random as _r
+        g_ = _r.Random(30)
+        generic = [_norm([g_.gauss(0, 1) for _ in range(4)]) for _ in range(150)]
+        for label, quats in (("exact", exact), ("rounded", qs[48:] + generic)):
+            q64 = torch.tensor(quats, dtype=torch.float64)
+            qd = q64.to(D)
+            case = {"stream": "dtypes", "dtype": dtname, "set": label}
+            for fname, call, check in (("matrix", lambda: p.SO3(qd).matrix(), None),
+                                       ("mat2SO3", lambda: p.mat2SO3(p.SO3(qd).matrix(), check=False), "q"),
+                                       ("from_matrix SE3", lambda: p.from_matrix(p.SE3(torch.cat([torch.ones(len(quats), 3, dtype=D), qd], -1)).matrix(), p.SE3_type, check=False), "se3"),
+                                       ("euler", lambda: p.SO3(qd).euler(), "euler"), ("euler2SO3", lambda: p.euler2SO3(p.SO3(qd).euler()), "e2q")):
+                ctx.note_case(("dtypes", dtname, label, fname), True)
+                try:
+                    with warnings.catch_warnings():
+                        warnings.simplefilter("ignore")
+                        out = call()
+                except Exception as e:
+                    ctx.count(f"dtypes.{dtname}.{fname}.refused")
+                    continue
+                ctx.count(f"dtypes.{dtname}.{fname}.accepted")
+                t = out.tensor() if hasattr(out, "ltype") else out
+                if t.dtype != D:
+                    ctx.fail(case | {"fn": fname}, f"dtype: {fname} on {dtname} input returned {t.dtype}")
+                    continue
+                t64 = t.double()
+                x = qd.double()
+                if not bool(torch.isfinite(t64).all()):
+                    ctx.fail(case | {"fn": fname}, f"finite: {fname} on {dtname} input returned non-finite values ({label})")
+                    continue
+                if fname == "matrix":
+                    refm = p.SO3(x).matrix()
+                    dm = float((t64 - refm).abs().max())
+                    if not dm <= (0.0 if label == "exact" else 8 * eps):
+                        ctx.fail(case | {"fn": fname}, f"matrix: matrix() in {dtname} differs from the float64 matrix of the same quaternions by {dm:.3e} ({label} inputs)")
+                if check in ("q", "se3"):
+                    qq = t64[:, -4:] if check == "se3" else t64
+                    dq = torch.minimum((qq - x).norm(dim=-1), (qq + x).norm(dim=-1)).max().item()
+                    tol_ = 0.0 if label == "exact" else K_ROT * eps
+                    if not dq <= tol_ + (4 * eps if label == "exact" else 0.0):
+                        ctx.fail(case | {"fn": fname}, f"rotation: {fname} on {dtname} matrices differs from X by {dq:.3e} > {tol_ + (4 * eps if label == 'exact' else 0.0):.3e} ({label} inputs)")
+                    un = float((qq.norm(dim=-1) - 1).abs().max())
+                    if not un <= 8 * eps:
+                        ctx.fail(case | {"fn": fname}, f"unit: {fname} on {dtname} matrices returns |‖q‖−1| = {un:.3e} > 8 eps")
+                    if check == "se3" and not torch.equal(t64[:, :3], torch.ones(len(quats), 3, dtype=torch.float64)):
+                        ctx.fail(case | {"fn": fname}, f"translation: {fname} on {dtname} matrices does not copy the translation")
+                elif check == "e2q":
+                    t2 = 2 * (x[:, 3] * x[:, 1] - x[:, 2] * x[:, 0]) / (x * x).sum(-1)
+                    reg = t2.abs() < 1 - 2e-4 - 64 * eps
+                    dq = torch.minimum((t64 - x).norm(dim=-1), (t64 + x).norm(dim=-1))
+                    lim = K_ROT * eps / (1 - t2 * t2).clamp_min(1e-4).sqrt()      # measured worst case on the clean tree: 1.5 eps / cos pitch
+                    if bool((reg & ~(dq <= lim)).any()):
+                        i = int((reg & ~(dq <= lim)).nonzero()[0])
+                        ctx.fail(case | {"fn": fname, "q": x[i].tolist()}, f"converse: euler2SO3(X.euler()) in {dtname} differs from X by {float(dq[i]):.3e} > {float(lim[i]):.3e}")
+    # integer / bool angle tensors: same values as the default float dtype, result in the default float dtype
+    for D in (torch.int64, torch.int32, torch.int16, torch.int8, torch.uint8):
+        a = torch.tensor([[1, 0, 2], [0, 1, 1], [3, 1, 0]], dtype=D)
+        case = {"stream": "dtypes", "dtype": str(D), "fn": "euler2SO3"}
+        ctx.note_case(("dtypes", str(D), "euler2SO3"), True)
+        try:
+            with warnings.catch_warnings():
+                warnings.simplefilter("ignore")
+                out = p.euler2SO3(a).tensor()
+                ref = p.euler2SO3(a.to(torch.get_default_dtype())).tensor()
+        except Exception:
+            ctx.count(f"dtypes.{D}.euler2SO3.refused")
+            continue
+        ctx.count(f"dtypes.{D}.euler2SO3.accepted")
+        if out.dtype != ref.dtype or not bool(((out - ref).abs() <= 4 * common.EPS["float32"]).all()):
+            ctx.fail(case, f"dtype: euler2SO3 of an integer angle tensor ({D}) returns {out.dtype} / values different from the float call")
+
+
 # ----------------------------------------------------------------------------- large batches (block / chunk boundaries)
 
 def run_large(ctx: Ctx):
@@ -2000,7 +2258,8 @@ def run_large(ctx: Ctx):
     the SIMD body and the scalar tail are not defects), the property's vectorised statement on every item,
     and the model on a sample that includes the LAST item."""
     p = P()
-    sizes = [4095, 4096, 16385, 65537] if ctx.quick else [1023, 4095, 4096, 4097, 8193, 16384, 16385, 32769, 65535, 65536, 65537, 131073]
+    sizes = ([4095, 4096, 16385, 65537, 2 ** 17 + 1] if ctx.quick else
+             [1023, 4095, 4096, 4097, 8193, 16384, 16385, 32769, 65535, 65536, 65537, 131073, 2 ** 18 + 1, 2 ** 18 + 37, 2 ** 20 + 1])
     rs = ctx.rng.choice([2 ** 12 + 1, 2 ** 13 - 1, 2 ** 15, 2 ** 15 + 1])       # one more, seed dependent
     lines, metas = [], []
     for n in sizes + [rs]:
@@ -2073,7 +2332,10 @@ def run_large(ctx: Ctx):
                             ctx.fail(case | {"cut": cut, "item": i}, f"split: {name} of {n} items ({dtype}) differs from cat(f(x[:{cut}]), f(x[{cut}:])) at item {i}: "
                                                                        f"whole {of[i].tolist()} vs parts {parts[i].tolist()}")
                             break
-                    idx = sorted({0, 1, n // 2, n - 2, n - 1} | {ctx.rng.randrange(n) for _ in range(3)})
+                    # first / last / random items and the LAST n % 2^k items for several k (a block loop that drops its remainder)
+                    idx = sorted({0, 1, n // 2, n - 2, n - 1} | {ctx.rng.randrange(n) for _ in range(3)}
+                                 | {n - 1 - ((n % 2 ** k_) // 2) for k_ in (6, 10, 12, 14, 16, 18) if n % 2 ** k_}
+                                 | {n - (n % 2 ** k_) for k_ in (6, 10, 12, 14, 16, 18) if 0 < n % 2 ** k_ < n})
                     for i in idx:
                         one = f(af[i:i + 1].clone())[0]
                         if bool(differs(one[None], of[i][None]).any()):
@@ -2161,6 +2423,8 @@ def run(ctx: Ctx):
     run_history(ctx)
     run_modes(ctx)
     run_mode_orders(ctx)
+    run_interleave(ctx)
+    run_dtypes(ctx)
     run_large(ctx)
     run_dispatch(ctx)
     run_kernel(ctx, ctx.pick(150, 1500))
